@@ -126,6 +126,10 @@ def v_eq(a, b):
     if a.kind == 'none' or b.kind == 'none':
         o = b if a.kind == 'none' else a
         return is_none(o)
+    if a.kind == 'dyn' and a.items:
+        a = a.items[0]          # what a callback returned: compared by the identity recorded with the call
+    if b.kind == 'dyn' and b.items:
+        b = b.items[0]
     if a.kind == 'dyn' or b.kind == 'dyn':
         raise Unsupported('comparison of an opaque call result')
     an, bn = a.n, b.n
